@@ -135,7 +135,9 @@ fn serve_inner<
         );
     }
 
-    let last_modified = ent.last_modified();
+    // An HTTP-date can't express a time before the Unix epoch (`fmt_http_date` panics on one), so
+    // such an entity is served as one without a modification time.
+    let last_modified = ent.last_modified().filter(|m| *m >= UNIX_EPOCH);
     let etag = ent.etag();
 
     let (precondition_failed, not_modified) =
